@@ -22,7 +22,7 @@ Host == <<<<"t", <<"log">>>>>>
 \* sequences (arrays and strings).  "é" = 233, "日" = 26085, "😀" = 128512
 Seqs == <<
   A(<<>>), A(<<I(7)>>), A(<<I(1), I(2)>>), A(<<I(1), S(<<97>>), B(TRUE)>>), A(<<F(3, 2), N, S(<<>>), I(-1)>>),
-  A(<<A(<<I(1)>>), H(<<>>)>>),
+  A(<<A(<<I(1)>>), H(<<>>)>>), A(<<I(3), I(1), I(2)>>), A(<<S(<<98>>), S(<<97>>), S(<<99>>)>>),
   S(<<>>), S(<<97>>), S(<<233>>), S(<<97, 233>>), S(<<233, 97, 98>>), S(<<26085, 128512, 97>>), S(<<97, 98, 99, 100>>)
 >>
 Idxs == << I(-2), I(-1), I(0), I(1), I(2), I(3), I(4), I(5), I(6), I(255), F(1, 1), F(1, 2), S(<<48>>), B(TRUE), N, A(<<I(0)>>) >>
@@ -61,6 +61,11 @@ LenProg(x)       == <<Ret(<<"arr", <<CallE("len", <<x>>), CallE("type", <<x>>)>>
 EachProg(x)      == <<ForEach("k", "e", x, <<TE(Ref("k")), TE(Ref("e"))>>), Ret(<<"arr", <<Ref("k"), Ref("e")>>>>)>>
 EachValProg(x)   == <<Asg("n", LitI(0)), ForEach("", "e", x, <<TE(Ref("e")), Bump("n")>>), Ret(Ref("n"))>>
 NestProg(x)      == <<Asg("n", LitI(0)), ForEach("", "e", x, <<ForEach("", "f", x, <<Bump("n"), TE(Ref("f"))>>), TE(Ref("e"))>>), Ret(Ref("n"))>>
+\* the container is still what it was after other code derived something from it (an ordered copy, a reversed
+\* copy, an iteration): elements in written order, visited once each
+AsideProg(x)     == <<Asg("s", CallE("sort", <<x>>)), Asg("v", CallE("reverse", <<x>>)), Asg("n", LitI(0)),
+                      ForEach("", "e", x, <<TE(Ref("e")), Bump("n")>>),
+                      Ret(<<"arr", <<x, BinE("[]", x, LitI(0)), Ref("n"), CallE("len", <<Ref("s")>>), CallE("len", <<Ref("v")>>)>>>>)>>
 InProg(x, e)     == <<Ret(BinE("in", <<"lit", e>>, x))>>
 KeysProg(x)      == <<Ret(CallE("keys", <<x>>))>>
 PrintProg(x)     == <<Ret(CallE("string", <<x>>))>>
@@ -84,6 +89,7 @@ Next ==
            \/ row' = MkRow("eachval", row.prov, row.c, EachValProg(x))
            \/ row' = MkRow("nest", row.prov, row.c, NestProg(x))
            \/ row' = MkRow("print", row.prov, row.c, PrintProg(x))
+           \/ (IsArr(row.c) /\ row' = MkRow("aside", row.prov, row.c, AsideProg(x)))
            \/ \E m \in 1..Len(Members) : row' = MkRow("in", row.prov, row.c, InProg(x, Members[m]))
      \/ /\ row.k = "hash0" /\ (row.prov = "fld" => FieldOK(row.c))
         /\ LET x == CExpr(row.prov, row.c) IN
